@@ -173,6 +173,13 @@ func (s *Solver) check(pc []*Term, extra *Term) satResult {
 	s.in.Flush()
 	line := s.readLine()
 	s.dur += time.Since(t0)
+	if d := time.Since(t0); d > 200*time.Millisecond && os.Getenv("SYMGO_SLOW") != "" {
+		ex := "nil"
+		if extra != nil {
+			ex = extra.s
+		}
+		fmt.Fprintf(os.Stderr, "SLOW %v %s extra=%s\n  pc=%v\n", d, line, ex, pc)
+	}
 	switch line {
 	case "sat":
 		s.nSat++
